@@ -715,7 +715,15 @@ func (v *visitor) visitForExpressionClause(c fql.IForExpressionClauseContext, sc
 	limitCtx := ctx.LimitClause()
 
 	if limitCtx != nil {
-		limit, offset, err := v.visitLimitClause(limitCtx, scope)
+		// LIMIT operands are evaluated once, before iteration starts, in the scope
+		// enclosing the loop: resolve them there, not in the loop's own scope
+		limitScope := scope
+
+		if scope.parent != nil {
+			limitScope = scope.parent
+		}
+
+		limit, offset, err := v.visitLimitClause(limitCtx, limitScope)
 		if err != nil {
 			return nil, err
 		}
